@@ -62,11 +62,16 @@ func main() {
 	fw.DispatchChild()
 	verbose := flag.Bool("v", false, "core runs with --verbose")
 	only := flag.String("only", "", "run only the scenarios whose name contains this")
+	slow := flag.Bool("slow", false, "also run the scenarios that wait for the core's 90 s response timeout")
 	flag.Parse()
 	t0 := time.Now()
 	failed := 0
 	for _, sc := range scenarios {
 		if *only != "" && !strings.Contains(sc.name, *only) {
+			continue
+		}
+		if strings.HasPrefix(sc.name, "slow-") && !*slow {
+			fmt.Printf("\n(skipping %s: needs -slow)\n", sc.name)
 			continue
 		}
 		fmt.Printf("\n================ scenario %s ================\n", sc.name)
@@ -395,6 +400,40 @@ var scenarios = []scenario{
 		fmt.Printf("NewEnvironment (critical tca fails at launch) -> id %q state %q after %.1fs\n  err %v\n  environments: %s\n", id, st, time.Since(t1).Seconds(), err, envs(w))
 		_ = waitAllTerminal(w)
 		fmt.Printf("  sim tasks: %s\n  core tasks: %s\n", tasksLine(w), coreTasks(w))
+		return nil
+	}},
+	{"slow-silent-foreign-die", func(w *sim.World) error {
+		// every one of these makes the core wait for its 90 s response timeout
+		w.SetOutcome(sim.Selector{Class: "tcb"}, "START", sim.Outcome{Kind: sim.ForeignID})
+		w.SetOutcome(sim.Selector{Class: "tcc"}, "START", sim.Outcome{Kind: sim.Silent})
+		id, st, err := newEnv(w)
+		if err != nil {
+			return err
+		}
+		fmt.Printf("env %s %s\n", id, st)
+		dump(w)
+		t1 := time.Now()
+		st, err = control(w, id, pb.ControlEnvironmentRequest_START_ACTIVITY)
+		st2, _ := w.EnvState(id)
+		fmt.Printf("START_ACTIVITY (tcb replies with a foreign command id, non-critical tcc never replies) -> %q err %v after %.1fs; GetEnvironment %q\n  sim tasks: %s\n  core tasks: %s\n",
+			st, err, time.Since(t1).Seconds(), st2, tasksLine(w), coreTasks(w))
+		dump(w)
+		return nil
+	}},
+	{"slow-die-in-transition", func(w *sim.World) error {
+		w.SetOutcome(sim.Selector{Class: "tcb"}, "START", sim.Outcome{Kind: sim.Die})
+		id, st, err := newEnv(w)
+		if err != nil {
+			return err
+		}
+		fmt.Printf("env %s %s\n", id, st)
+		dump(w)
+		t1 := time.Now()
+		st, err = control(w, id, pb.ControlEnvironmentRequest_START_ACTIVITY)
+		st2, _ := w.EnvState(id)
+		fmt.Printf("START_ACTIVITY (critical tcb dies instead of replying) -> %q err %v after %.1fs; GetEnvironment %q\n  sim tasks: %s\n  core tasks: %s\n",
+			st, err, time.Since(t1).Seconds(), st2, tasksLine(w), coreTasks(w))
+		dump(w)
 		return nil
 	}},
 	{"hook", func(w *sim.World) error {
